@@ -283,10 +283,19 @@ fn run_gated(tracer: &Tracer, rng: &mut StdRng, scenario: &str, tag: Value) {
         return;
     }
     match scenario {
-        "delete_commit" => {
+        "delete_commit" | "delete_commit_fault" => {
+            if scenario == "delete_commit_fault" {
+                w.exec(&json!({"op":"del","pred":{"k":"id","id":1}}));      // certainly hits a merged document
+            }
             w.exec(&json!({"op":"del","pred":{"k":"term","t":"a"}}));
             w.exec(&json!({"op":"add","id":n0 + 1,"t":"a","v":0}));
             w.exec(&json!({"op":"commit"}));
+            if scenario == "delete_commit_fault" {
+                // the merge now has to catch up with the committed delete: the creation of the merged
+                // segment's delete file fails -> the merge must be discarded, nothing published
+                let now = w.dir.opcount();
+                w.dir.set_fault(vh::simdir::FaultPlan { k: now + 1, ops: vec!["open_write".into()], only_suffix: ".del".into(), skip_locks: true, ..Default::default() });
+            }
         }
         "rollback" => {
             w.exec(&json!({"op":"add","id":n0 + 1,"t":"c","v":0}));
@@ -325,6 +334,7 @@ fn run_gated(tracer: &Tracer, rng: &mut StdRng, scenario: &str, tag: Value) {
         let obs = w.observe();
         tracer.emit(json!({"ev":"merge","ok":r.is_ok(),"sids":[],"obs":obs}));
     }
+    w.dir.set_fault(vh::simdir::FaultPlan::default());
     if stale {
         w.exec(&json!({"op":"reload"}));
         w.exec(&json!({"op":"gc"}));
@@ -353,7 +363,7 @@ fn main() {
             }
         }
         "gated" => {
-            let scen = ["delete_commit", "rollback", "delete_all_commit", "two_commits", "fresh_writer_delete", "wait_with_intruder", "stale_end_merge"];
+            let scen = ["delete_commit", "rollback", "delete_all_commit", "two_commits", "fresh_writer_delete", "wait_with_intruder", "stale_end_merge", "delete_commit_fault"];
             for r in 0..runs {
                 let s = scen[(r as usize) % scen.len()];
                 run_gated(&tracer, &mut rng, s, json!({"seed":seed,"run":r,"scenario":s}));
